@@ -35,6 +35,7 @@ value = st.one_of(
     st.floats(allow_nan=False, allow_infinity=False, width=32).map(float),
     st.just(float("nan")),
     st.just(0.0),
+    st.sampled_from([3.4028234663852886e38, -3.4028234663852886e38, 3.402e38, -3.4019e38, 1.1754943508222875e-38, 1e-45, -0.0, 16777217.0]),
 )
 FIELDS = {c: value for c in oracle.MOTL_COLUMNS if c != "subtomo_id"}
 FIELDS.update({"phi": value, "psi": value, "theta": value})
@@ -134,6 +135,17 @@ def run(case):
         return out
     if not out.check(len(df2) == n, "reload:row_count", f"{len(df2)} != {n}"):
         return out
+    # loading is repeatable: modifying the loaded list in place must not leak into a second load of the same file
+    call(out, "scale_coordinates", lambda: m.scale_coordinates(3.0))
+    try:
+        m.df["class"] = 77.0
+    except Exception:
+        pass
+    ok, m2 = call(out, "Motl.load(second)", lambda: cryomotl.Motl.load(path))
+    if ok:
+        g2 = m2.df[oracle.MOTL_COLUMNS].to_numpy(dtype=float) if sorted(m2.df.columns) == sorted(oracle.MOTL_COLUMNS) else None
+        out.check(g2 is not None and g2.shape == expect.shape and np.array_equal(g2, expect.astype(float)), "reload:second_load_differs_after_modifying_the_first", "")
+    df2 = (cryomotl.Motl.load(path) if False else m2).df if ok else df2
     for j, c in enumerate(oracle.MOTL_COLUMNS):
         got = df2[c].to_numpy(dtype=float)
         exp = expect[:, j].astype(float)
